@@ -12,23 +12,32 @@ static long live, overflow;
 
 static unsigned slot_of(const volatile void *p) { return ((uintptr_t)p >> 4) * 2654435761u & (HC_SLOTS - 1); }
 
+/* the hooks may run on two threads (C06 real loop thread: the C library frees thread-local blocks at thread exit) */
+static volatile int hc_lock;
+static void lock(void) { while (__atomic_exchange_n(&hc_lock, 1, __ATOMIC_ACQUIRE)) ; }
+static void unlock(void) { __atomic_store_n(&hc_lock, 0, __ATOMIC_RELEASE); }
+
 static void on_malloc(const volatile void *p, size_t size)
 {
     if (!tracking || paused || p == NULL) return;
+    lock();
     unsigned s = slot_of(p);
     for (unsigned i = 0; i < HC_SLOTS; i++, s = (s + 1) & (HC_SLOTS - 1))
-        if (tab[s].p == NULL || tab[s].p == (void *)1) { tab[s].p = p; tab[s].size = size; live++; return; }
+        if (tab[s].p == NULL || tab[s].p == (void *)1) { tab[s].p = p; tab[s].size = size; live++; unlock(); return; }
     overflow++;
+    unlock();
 }
 
 static void on_free(const volatile void *p)
 {
     if (!tracking || p == NULL) return;
+    lock();
     unsigned s = slot_of(p);
     for (unsigned i = 0; i < HC_SLOTS; i++, s = (s + 1) & (HC_SLOTS - 1)) {
-        if (tab[s].p == p) { tab[s].p = (void *)1; live--; return; }
-        if (tab[s].p == NULL) return;
+        if (tab[s].p == p) { tab[s].p = (void *)1; live--; break; }
+        if (tab[s].p == NULL) break;
     }
+    unlock();
 }
 
 void hc_pause(int delta) { paused += delta; }
